@@ -414,6 +414,29 @@ class Check:
             bad_ax = [a for a in axs if not allowed_axiom(a)]
             if bad_ax:
                 errs.append('%s depends on axioms outside the standard library: %s' % (pf, ', '.join(bad_ax)))
+        if self.tier == 'thorough' and not broken:
+            # independent re-check of the compiled property files and everything they depend on (coqchk), axioms listed
+            for pf in spec.COQ_PROPS:
+                with Lock('coq'):
+                    rc, out, dt = sh('timeout 1500 coqchk -o -silent -Q . DS DS.%s' % pf, cwd=COQ, timeout=1530)
+                axs = []
+                grab = False
+                for line in out.split('\n'):
+                    if line.strip().startswith('* Axioms:'):
+                        rest = line.split('Axioms:', 1)[1].strip()
+                        if rest and rest != '<none>':
+                            axs.append(rest)
+                        grab = True; continue
+                    if grab:
+                        if line.strip().startswith('*') or not line.strip():
+                            if line.strip().startswith('*'): grab = False
+                            continue
+                        axs.append(line.strip())
+                if rc != 0:
+                    broken.append((pf, 'coqchk failed:\n' + out[-2000:]))
+                tb.append('coqchk -o DS.%s (%.0fs): %s; axioms of ALL loaded libraries: %s' % (
+                    pf, dt, 'ok' if rc == 0 else 'FAILED', ', '.join(axs) if axs else 'none'))
+                cmds.append('coqchk -o -silent -Q . DS DS.%s' % pf)
         self.cov['obligations'] = obligations
         self.cov['discharged'] = discharged
         self.cov['checker_cmd'] = '; '.join(cmds) if cmds else 'none'
